@@ -7,7 +7,12 @@ Tie (X): random ASTs + layouts are rendered by the Coq `render_line` (in the cas
 Python mirror (byte-identical or the shard reports it), parsed by the real ParserX86ATT and by the model;
 a malformed stream (token deletions / duplications / swaps) compares the verdicts wherever the model does
 not answer Unmodelled; whole files compare line numbers, verbatim text and outcomes.
-Search (needs no model): ast_of(impl.parse_line(render ast)) == ast, the positions of non-blank lines,
+Segment-override references %seg:disp(base,index,scale) are inside the model (displacement kept as written: number text or
+identifier[@relocation[+-offset]]; every base/index/scale shape); the serialiser harness/c09_gen.py:impl_segment normalises the two
+shapes the grammar leaves in segment_ext (bare number string / dict) to one AST.
+Written forms whose extras the code drops (opmask/zeroing, @relocation+-offset of identifiers, b/f of numeric labels) are rendered
+too; model and oracle expect code_view(ast) -- everything the property names -- and the dropped parts are logged as observations.
+Search (needs no model): ast_of(impl.parse_line(render ast)) == code_view(ast), the positions of non-blank lines,
 and a metamorphic oracle (blanks around separators must not change the result).
 """
 import re
@@ -51,6 +56,31 @@ CORPUS = [
     ("jne .L4", "I:jne:L(.L4)"),
     ("lea foo(%rip), %rax", "I:lea:M(L(foo);rip;-;1),R(rax)"),
     ("ret", "I:ret:"),
+    # segment-override references: ONE operand, displacement kept as written
+    ("movq %fs:8(%rax), %rbx", "I:movq:S(fs;N(8);rax;-;1),R(rbx)"),
+    ("movq %fs:0x28, %rax", "I:movq:S(fs;N(0x28);-;-;1),R(rax)"),
+    ("movq %fs:40 , %rax", "I:movq:S(fs;N(40);-;-;1),R(rax)"),
+    ("movl %ebx,%fs:16( %rax )", "I:movl:R(ebx),S(fs;N(16);rax;-;1)"),
+    ("movq %gs:0x10(%rdi,%rsi,4) , %rcx  # tls slot", "I:movq:S(gs;N(0x10);rdi;rsi;4),R(rcx)"),
+    ("addq $-0x20, %fs:0(%rdx,%rcx,8)", "I:addq:I(-32),S(fs;N(0);rdx;rcx;8)"),
+    ("movq %fs : -8 (%rax), %rbx", "I:movq:S(fs;N(-8);rax;-;1),R(rbx)"),
+    ("movq %gs:(,%rsi,4), %rbx", "I:movq:S(gs;-;-;rsi;4),R(rbx)"),
+    ("movq %fs:var@TPOFF-8(%rcx), %rbx", "I:movq:S(fs;L(var;TPOFF;-8);rcx;-;1),R(rbx)"),
+    ("movq %fs:var @TPOFF + 8, %rbx", "I:movq:S(fs;L(var;TPOFF;8);-;-;1),R(rbx)"),
+    # opmask, indirect, relocation, numeric label, prefixes: one operand each, of the written kind, named parts kept
+    ("vaddpd %zmm1, %zmm2, %zmm3{%k1}{z}", "I:vaddpd:R(zmm1),R(zmm2),R(zmm3)"),
+    ("vmovupd %zmm1, 8(%rax,%rbx,2) {%k1}", "I:vmovupd:R(zmm1),M(8;rax;rbx;2)"),
+    ("jmp *%rax", "I:jmp:*R(rax)"),
+    ("jmp *8(%rax)", "I:jmp:M(8;rax;-;1)"),
+    ("call *foo@GOTPCREL(%rip)", "I:call:M(L(foo);rip;-;1)"),
+    ("call *foo@GOTPCREL", "I:call:*L(foo;GOTPCREL;-)"),
+    ("jmp *0x10", "I:jmp:*N(0x10)"),
+    ("call foo@PLT", "I:call:L(foo)"),
+    ("mov $foo@GOT-4, %rax", "I:mov:L(foo),R(rax)"),
+    ("mov foo@GOTPCREL+8(%rip), %rax", "I:mov:M(L(foo);rip;-;1),R(rax)"),
+    ("jmp 1b", "I:jmp:L(1)"),
+    ("jne 22f # c", "I:jne:L(22)"),
+    ("data16 data32 lea 8(%rax), %rbx", "I:lea:M(8;rax;-;1),R(rbx)"),
 ]
 
 
@@ -81,7 +111,7 @@ def normalise_blanks(line):
     if m:
         line = line[:m.start()]
     line = line.strip(" \t\r")
-    line = re.sub(r"[ \t\r]*([,()])[ \t\r]*", r"\1", line)
+    line = re.sub(r"[ \t\r]*([,():@{}*])[ \t\r]*", r"\1", line)
     return re.sub(r"[ \t\r]+", " ", line)
 
 
@@ -99,17 +129,19 @@ def wf_shard(cases):
     """cases: list of (lay, ast, line_py)"""
     rows = []
     for lay, ast, line in cases:
-        rows.append("(%s, %s, %s, %s)" % (g.cq_layout(lay), g.cq_ast(ast), g.cq_str(line), g.cq_str(g.canon_instr(ast))))
+        rows.append("(%s, %s, %s, %s, %s)" % (g.cq_layout(lay), g.cq_ast(ast), g.cq_str(line), g.cq_str(g.canon_instr(ast)),
+                                              g.cq_str(g.canon_code(ast))))
     return HEADER + """
-Definition cases : list (layout * instr * string * string) := [
+Definition cases : list (layout * instr * string * string * string) := [
 %s
 ].
-Definition chk (p : nat * (layout * instr * string * string)) : list string :=
-  let '(i, (lay, a, line, canon)) := p in
+Definition chk (p : nat * (layout * instr * string * string * string)) : list string :=
+  let '(i, (lay, a, line, canon, code)) := p in
   let r := render_line lay a in
   (if String.eqb r line then [] else [nat_str i ++ ":render"])
   ++ (if String.eqb (show_instr a) canon then [] else [nat_str i ++ ":canon"])
-  ++ (if String.eqb (show_outcome (parse_line r)) canon then [] else [nat_str i ++ ":model=" ++ show_outcome (parse_line r)]).
+  ++ (if String.eqb (show_code_view a) code then [] else [nat_str i ++ ":codeview"])
+  ++ (if String.eqb (show_outcome (parse_line r)) code then [] else [nat_str i ++ ":model=" ++ show_outcome (parse_line r)]).
 Eval vm_compute in (cat (flat_map chk (idx 0 cases)) ++ "|" ++ nat_str (length cases)).
 """ % ";\n".join(rows)
 
@@ -188,9 +220,11 @@ def gen_directive_line(rng):
         rest = ""
     elif r < 0.7:
         rest = rng.choice([" 16", "\t4,,10", " main", " main, @function", " .text.startup,ax,@progbits", " 1,2,3 # c",
-                           " x // y", "\t.-main", " 0x90", " a:", " %rax", " ,", "#c"])
+                           " x // y", "\t.-main", " 0x90", " a:", " %rax", " ,", "#c",
+                           ' "a, b # c"', ' "a\\"b"', ' "x" # c', ' 1 "a b.c"', " 'x'", ' "GCC: (GNU) 9.1"',
+                           ' .note.GNU-stack,"",@progbits', ' "abc', " 'a", ' "a""b", 2', ' "#" "," # "', " '\\'' , 3"])
     else:
-        rest = rng.choice(" \t") + "".join(rng.choice(g.PRINTABLE.replace('"', "").replace("'", "") + "  \t")
+        rest = rng.choice(" \t") + "".join(rng.choice(g.PRINTABLE + "  \t\"\"''")
                                            for _ in range(rng.randint(0, 12)))
         if rest.strip(" \t\r").startswith(":"):
             rest = " x" + rest
@@ -210,7 +244,7 @@ def gen_file(rng):
         if r < 0.65:
             ast = g.gen_ast(rng)
             t = g.render_line(g.gen_layout(rng, len(ast[1])), ast)
-            exp = g.canon_instr(ast)
+            exp = g.canon_code(ast)
         elif r < 0.77:
             t, exp = gen_comment_line(rng), "C"
         elif r < 0.9:
@@ -240,8 +274,13 @@ def run(ctx):
     parser = ParserX86ATT()
     ctx.trusted += [
         "hand-written model Model/ParseX86.v + Model/ParseFileX86.v (tied to the pyparsing grammar by the differential streams of this run)",
-        "pyparsing itself, and every grammar alternative the model answers Unmodelled for (segment overrides, *indirect, {mask}, "
-        "data16/data32 prefixes, @relocations, quoted directive parameters, numeric labels as operands, id+offset)",
+        "pyparsing itself, and every grammar alternative the model answers Unmodelled for: number+identifier `8+foo`, `a::b`, "
+        "`%st(1)`, a mask inside the parentheses `(%rax{%k1})` or on a segment / `*` register, `%fs:` with an empty extension, "
+        "`*%fs:8`, `$ 5` / `% rax` with inner blanks, an identifier followed by a blank and a number, doubled / missing commas, "
+        "identifiers starting with `-`, comment text that is not printable ASCII",
+        "harness/c09_gen.py: impl_operand / impl_segment / impl_star (serialisation of the operand objects, incl. the raw "
+        "pyparsing leftovers in segment_ext and in the `offset` list of `*` operands) and code_view (mirror of the Coq "
+        "code_view, compared with it on every generated case)",
         "Python mirror of render (harness/c09_gen.py): compared with the Coq render on every generated case",
     ]
     ctx.assumptions += [
@@ -287,6 +326,7 @@ def run(ctx):
     wf = []
     viol_wf = 0
     kinds = {}
+    observed, obs_example = {}, {}
     for _ in range(n_wf):
         ast = g.gen_ast(rng)
         lay = g.gen_layout(rng, len(ast[1]))
@@ -297,18 +337,39 @@ def run(ctx):
         if ast[1]:
             ctx.nontriv(line)
         for o in ast[1]:
-            k = o[0] if o[0] != "mem" else "mem:%d%d%d" % (o[1] is not None, o[2] is not None, o[3] is not None)
+            if o[0] == "mem":
+                k = "mem:%s%d%d" % ("-" if o[1] is None else o[1][0], o[2] is not None, o[3] is not None)
+            elif o[0] == "seg":
+                d = o[2]
+                k = "seg:%s:%d%d" % ("none" if d is None else d[0] if d[0] == "num" else
+                                     "id" + ("@" if d[2] is not None else "") + ("+" if d[3] is not None else ""),
+                                     o[3] is not None, o[4] is not None)
+            elif o[0] == "memk":
+                k = "memk:%s%d%d" % ("-" if o[1] is None else o[1][0], o[2] is not None, o[3] is not None)
+            elif o[0] == "star":
+                k = "star:" + o[1][0]
+            else:
+                k = o[0]
             kinds[k] = kinds.get(k, 0) + 1
-        if got != g.canon_instr(ast):
+        want = g.canon_code(ast)     # the attributes the property names (the code's view of the written operands)
+        for cls in g.lossy_classes(ast):
+            observed[cls] = observed.get(cls, 0) + 1
+            if got == want and cls not in obs_example:
+                obs_example[cls] = "%r: written %s, recovered %s" % (line, g.canon_instr(ast), got)
+        if got != want:
             viol_wf += 1
             if first_operand_class(ast) and got.startswith("I:") and metamorphic(parser, line):
                 ctx.violation(KEY_WS, "first operand `%s` followed by a blank is recovered as a label, without the blank as a "
-                              "memory reference: %r -> %s (written: %s)" % (g.render_op(True, lay["ops"][0][0], ast[1][0]), line, got, g.canon_instr(ast)),
-                              {"kind": "line", "line": line, "expected": g.canon_instr(ast)})
+                              "memory reference: %r -> %s (written: %s)" % (g.render_op(True, lay["ops"][0][0], ast[1][0]), line, got, want),
+                              {"kind": "line", "line": line, "expected": want})
             else:
-                ctx.violation("x86-roundtrip", "%r parsed as %s, written as %s" % (line, got, g.canon_instr(ast)),
-                              {"kind": "line", "line": line, "expected": g.canon_instr(ast)})
+                ctx.violation("x86-roundtrip", "%r parsed as %s, written as %s" % (line, got, want),
+                              {"kind": "line", "line": line, "expected": want})
     ctx.coverage["operand_kinds"] = kinds
+    # written information the code drops (outside what the property names): recorded, not a violation
+    ctx.coverage["observations"] = {k: {"lines": observed[k], "example": obs_example.get(k)} for k in sorted(observed)}
+    for k in sorted(observed):
+        ctx.log("observation: %s on %d generated lines (not named by the property; e.g. %s)" % (k, observed[k], obs_example.get(k)))
     ctx.sample({"line": wf[0][2], "ast": g.canon_instr(wf[0][1])})
     ctx.sample({"line": wf[1][2], "ast": g.canon_instr(wf[1][1])})
 
@@ -352,13 +413,15 @@ def run(ctx):
         text = g.gen_comment_text(rng).replace("\t", " ") + " " + rng.choice(NON_ASCII) + rng.choice(["", " x", " # y"])
         marker = "//" if rng.random() < 0.4 else "#"
         r = rng.random()
+        base = None
         if r < 0.4:
             ast = g.gen_ast(rng)
             lay = g.gen_layout(rng, len(ast[1]))
             lay["comment"] = None
             if first_operand_class(ast):
                 continue
-            t, exp = g.render_line(lay, ast) + marker + text, g.canon_instr(ast)
+            base = g.render_line(lay, ast)
+            t, exp = base + marker + text, g.canon_code(ast)
         elif r < 0.6:
             t, exp = g.gen_ws(rng) + marker + text, "C"
         elif r < 0.8:
@@ -371,7 +434,11 @@ def run(ctx):
         got, _ = g.impl_line(parser, t)
         ctx.count()
         n_cmt += 1
-        if got != exp:
+        if got != exp and base is not None and g.impl_line(parser, base)[0] != exp:
+            # the same line without the comment is already mis-parsed: not a comment problem
+            ctx.violation("x86-roundtrip", "%r parsed as %s, written as %s" % (base, g.impl_line(parser, base)[0], exp),
+                          {"kind": "line", "line": base, "expected": exp})
+        elif got != exp:
             ctx.violation(KEY_CMT, "%r -> %s, written as %s" % (t, "ValueError" if got == "E" else got, exp),
                           {"kind": "line", "line": t, "expected": exp})
     ctx.coverage["non_ascii_comment_lines"] = n_cmt
@@ -450,8 +517,9 @@ def run(ctx):
                 agg[kind].append((base, item))
     ctx.obligation("all case shards evaluate", "correspondence", not hard_fail, "\n".join(hard_fail))
 
-    # well-formed: render mirror, serialisation mirror, model = AST
-    ctx.obligation("Coq render = Python render, Coq show = Python canon, model parse(render) = AST on %d random (AST, layout) pairs" % len(wf),
+    # well-formed: render mirror, serialisation mirror, code_view mirror, model = code_view(AST)
+    ctx.obligation("Coq render = Python render, Coq show = Python canon, Coq code_view = Python code_view, model parse(render) = code_view(AST) "
+                   "on %d random (AST, layout) pairs" % len(wf),
                    "correspondence", not agg["wf"], "first: %s" % (agg["wf"][:5],))
     # malformed: model verdict = implementation verdict
     real = []
